@@ -139,8 +139,7 @@ func (m *Module) handleSetEntityAction(ctx context.Context, respond hwebsocket.R
 		return nil
 	}
 
-	latestEntityAction, ok := m.state.EntityAction(entityAction.EntityId, entityAction.Name)
-	if ok && entityAction.Timestamp.AsTime().Before(latestEntityAction.Timestamp.AsTime()) {
+	if !m.state.SetEntityActionIfLatest(entityAction) {
 		respond.Send(&hagallpb.ErrorResponse{
 			Type:      hagallpb.MsgType_MSG_TYPE_ERROR_RESPONSE,
 			Timestamp: timestamppb.Now(),
@@ -149,8 +148,6 @@ func (m *Module) handleSetEntityAction(ctx context.Context, respond hwebsocket.R
 		})
 		return nil
 	}
-
-	m.state.SetEntityAction(entityAction)
 
 	// The entity may have been removed, and its actions with it, since it was
 	// looked up: an action must not outlive its entity.
